@@ -137,6 +137,62 @@ def timelimit_histories(ctx: Ctx):
     return cases
 
 
+def declared_callables_case(shift: int, under: str) -> dict:
+    """TransformAction declares TWO maps: of the action and (optionally) of the action mask.  A masked chain environment under a
+    cyclic relabelling of its three actions, alone and below / above other wrappers: the wrapper's mask must be the relabelled inner
+    mask in every state, and the step taken for a wrapped action must be the inner step of the mapped action."""
+    import jax.numpy as jnp
+    import jax.random as jr
+    import numpy as np
+    from lerax.space import Discrete
+    from lerax import wrapper as W
+    from ..drive_identity import MaskedChain, _CS, NA, NS
+    inner = MaskedChain(True)
+    env = W.TransformAction(inner, lambda a: (a + shift) % NA, Discrete(NA), lambda m: jnp.roll(m, -shift))
+    if under == "TimeLimit":
+        env = W.TimeLimit(env, 9)
+    elif under == "ClipReward":
+        env = W.ClipReward(env, -0.5, 0.5)
+    def inner_of(ws):
+        while not isinstance(ws, _CS):
+            ws = ws.env_state
+        return ws
+    ok_mask = ok_step = True
+    seen = set()
+    rng = random.Random(shift)
+    for k in range(4):
+        ws = env.initial(key=jr.key(k))
+        for _ in range(10):
+            base = inner_of(ws)
+            seen.add(int(base.s))
+            im = np.asarray(inner.action_mask(base, key=jr.key(1)))
+            wm = np.asarray(env.action_mask(ws, key=jr.key(1)))
+            ok_mask &= bool(np.array_equal(wm, np.roll(im, -shift)))
+            nxt = None
+            for a in range(NA):
+                nx = env.transition(ws, jnp.asarray(a), key=jr.key(2))
+                inx = inner.transition(base, jnp.asarray((a + shift) % NA), key=jr.key(2))
+                ok_step &= bool(int(inner_of(nx).s) == int(inx.s))
+                if wm[a] and (nxt is None or rng.random() < 0.5):
+                    nxt = nx
+            if nxt is None or bool(env.terminal(nxt, key=jr.key(3))) or bool(env.truncate(nxt)):
+                break
+            ws = nxt
+    ok_mask &= len(seen) >= 3
+    return {"atoms": {"DeclaredMaskMapIsApplied": bool(ok_mask), "InnerEnvironmentIsFedTheMappedAction": bool(ok_step)},
+            "meta": {"shift": shift, "stack": ["TransformAction"] + ([under] if under else [])}}
+
+
+def declared_callables(ctx: Ctx, rep: Report):
+    cases = [dict(shift=s, under=u) for s in (1, 2) for u in ("", "TimeLimit", "ClipReward")]
+    items = [declared_callables_case(c["shift"], c["under"]) for c in cases]
+    v = tracecheck.validate(ctx, "trace/Trace_Atoms.tla", items, "declared_callables")
+    rep.traces += len(items)
+    rep.parts["declared_action_and_mask_maps_of_TransformAction"] = {"cases": [i["meta"] for i in items], "accepted": len(v.accepted), "rejected": len(v.rejected)}
+    for i, (l, clauses) in sorted(v.rejected.items()):
+        rep.violations.append(Violation("C13:declared_callables:" + "+".join(clauses), f"{items[i]['meta']}: {clauses}", "declared_callables", cases[i]))
+
+
 def run(ctx: Ctx) -> Report:
     from .. import drive_env, drive_wrappers
     rep = Report()
@@ -188,6 +244,7 @@ def run(ctx: Ctx) -> Report:
     for vi in c01.violations_from(v2, alltr, allcases):
         vi.key = vi.key.replace("C01:", "C13:")
         rep.violations.append(vi)
+    declared_callables(ctx, rep)
     # (c) adapters
     try:
         from . import adapters
@@ -203,6 +260,13 @@ def replay(ctx: Ctx, driver: str, case: dict) -> Report:
     from .. import drive_env, drive_wrappers
     rep = Report()
     cache = tb.EnvCache()
+    if driver == "declared_callables":
+        it = declared_callables_case(case["shift"], case["under"])
+        v = tracecheck.validate(ctx, "trace/Trace_Atoms.tla", [it], "replay")
+        for i, (l, clauses) in v.rejected.items():
+            rep.violations.append(Violation("C13:declared_callables:" + "+".join(clauses), str(it["meta"]), driver, case))
+        rep.traces = 1
+        return rep
     if driver == "components":
         tr = drive_wrappers.record_components(cache, case["cfg"], [tuple(p) for p in case["probes"]], case["seed"])
         v = tracecheck.validate(ctx, "trace/Trace_Components.tla", [tr], "replay")
